@@ -781,8 +781,8 @@ func (h *handler) scenarioScript(ci *connInfo, cb string) {
 	case "et-backlog":
 		if cb == "traffic" && ci.traffic == 1 {
 			h.doCall(ci, "next", -1, nil, false)
-			h.doCall(ci, "write", 0, big(300000), false) // partly buffered: the socket is full
-			for i := 0; i < 3000; i++ {
+			h.doCall(ci, "write", 0, big(100000), false) // partly buffered: the socket is full
+			for i := 0; i < 2200; i++ {
 				h.doCall(ci, "write", 0, []byte(fmt.Sprintf("%07d ", i)), false) // one list node each
 			}
 		} else if cb == "traffic" {
